@@ -70,22 +70,79 @@ func (m *urlModule) buildParamsFromObject(o *goja.Object) searchParams {
 	}
 
 	for _, k := range o.Keys() {
-		val := o.Get(k).String()
-		query = append(query, searchParam{name: k, value: val})
+		v := o.Get(k)
+		if v == nil {
+			// the key is gone: reading an earlier one deleted it (a getter), or a proxy listed a key it does not have
+			continue
+		}
+		query = append(query, searchParam{name: k, value: v.String()})
 	}
 
 	return query
 }
 
+// forOf iterates over iterable like a for...of statement. (Runtime.ForOf calls the iterator's next without
+// checking that it is callable: an iterator object without one takes the host down with a nil dereference.)
+func (m *urlModule) forOf(iterable goja.Value, step func(val goja.Value) bool) {
+	obj := iterable.ToObject(m.r)
+	method, ok := goja.AssertFunction(obj.GetSymbol(goja.SymIterator))
+	if !ok {
+		panic(m.r.NewTypeError("object is not iterable"))
+	}
+	itv, err := method(obj)
+	if err != nil {
+		panic(err)
+	}
+	it, ok := itv.(*goja.Object)
+	if !ok {
+		panic(m.r.NewTypeError("Result of the Symbol.iterator method is not an object"))
+	}
+	next, ok := goja.AssertFunction(it.Get("next"))
+	if !ok {
+		panic(m.r.NewTypeError("iterator.next is not a function"))
+	}
+	done := false
+	defer func() {
+		if !done { // left early (a step asked to stop, or threw): close the iterator
+			if ret, ok := goja.AssertFunction(it.Get("return")); ok {
+				_, _ = ret(it)
+			}
+		}
+	}()
+	for {
+		resv, err := next(it)
+		if err != nil {
+			done = true
+			panic(err)
+		}
+		res, ok := resv.(*goja.Object)
+		if !ok {
+			done = true
+			panic(m.r.NewTypeError("Iterator result %s is not an object", resv))
+		}
+		if d := res.Get("done"); d != nil && d.ToBoolean() {
+			done = true
+			return
+		}
+		v := res.Get("value")
+		if v == nil {
+			v = goja.Undefined()
+		}
+		if !step(v) {
+			return
+		}
+	}
+}
+
 func (m *urlModule) buildParamsFromIterable(o *goja.Object) searchParams {
 	var query searchParams
 
-	m.r.ForOf(o, func(val goja.Value) bool {
+	m.forOf(o, func(val goja.Value) bool {
 		obj := val.ToObject(m.r)
 		var name, value string
 		i := 0
-		// Use ForOf to determine if the object is iterable
-		m.r.ForOf(obj, func(val goja.Value) bool {
+		// Use forOf to determine if the object is iterable
+		m.forOf(obj, func(val goja.Value) bool {
 			if i == 0 {
 				name = val.String()
 				i++
